@@ -2,7 +2,7 @@
 import math
 
 from ..facts import AnalysisBroken, walk, strip_targs
-from ..pp import pp, skip
+from ..pp import pp, skip, canon_text as CT
 from ..util import (args, assignment, callee, incdec, is_call, is_literal, obj, ref_decl, strip_not, literal_value,
                     find_var, writes_in, root_of)
 
@@ -483,9 +483,9 @@ def rule_enum_roundtrip(F, R):
                 break
             c = pp(ifs[0]["c"][ifs[0]["r"].index("cond")])
             o = var["n"]
-            if c in ("(%s.second == %s)" % (o, sp_), "(%s == %s.second)" % (sp_, o)):
+            if c == CT("(%s.second == %s)" % (o, sp_)):
                 steps.append("exact")
-            elif c in ("(%s.find(%s.second, 0) == 0)" % (sp_, o), "(%s.rfind(%s.second, 0) == 0)" % (sp_, o)):
+            elif c in (CT("(%s.find(%s.second, 0) == 0)" % (sp_, o)), CT("(%s.rfind(%s.second, 0) == 0)" % (sp_, o))):
                 steps.append("prefix")
             else:
                 okshape = False
